@@ -328,6 +328,18 @@ def run_shard(shard: dict) -> Res:
             if base + p >= SPACE:
                 continue
             check_pointer(res, cx, base, p)
+            if i % 5 == 0:
+                # a negative base (positions counted in a file with a 0x200-byte header, a table relative to a bank start) or a
+                # negative pointer: base + p is still an ordinary ROM offset
+                nb = -rng.choice([0x200, 0x8000, 0x1, 0x7FFF, 0x10000, rng.randrange(1, 0x20000)])
+                pp = -nb + (rng.choice(edges) if rng.random() < 0.5 else rng.randrange(0, 0x100000))
+                if 0 <= nb + pp < SPACE:
+                    check_pointer(res, cx, nb, pp)
+                    res.count("negative_base_pointers")
+                np_ = -rng.choice([0x200, 1, 0x8000, 0x7FFF, rng.randrange(1, 0x10000)])
+                if 0 <= base + np_ < SPACE:
+                    check_pointer(res, cx, base, np_)
+                check_rel(res, -rng.choice([0x8000, 0x200, 1, 0xFFFF, rng.randrange(1, 0x20000)]), rng.randrange(256), rng.choice([0x80, 0xFF, rng.randrange(256)]))
             check_rel(res, rng.randrange(0, SPACE), rng.choice([0, 1, 0x7F, 0x80, 0xFF, rng.randrange(256)]), rng.choice([0, 1, 0x7F, 0x80, 0xFF, rng.randrange(256)]))
             if i % 8 == 0:
                 k = rng.randint(2, 9)
